@@ -87,6 +87,7 @@ class Work:
         self.events = []      # C12-style generation events
         self.fresh_pkgs = []  # go import paths of usable fresh packages
         self.init_failures = {}  # fresh packages whose init() panics
+        self.engine_crashes = []  # process-fatal crashes of engine shards, confirmed by a second run (run_engine)
         self.sets = []
 
     def __enter__(self):
@@ -299,27 +300,61 @@ class Work:
 
     # -- engines ---------------------------------------------------------------
     def run_engine(self, binary, engine, shards=NCPU, args=(), timeout=3600, env=None):
-        outs = []
-        procs = []
+        """Runs the engine in `shards` processes.  A process that dies of a Go fatal error (stack overflow,
+        concurrent map access, ...: not recoverable in-process) while it was inside a case is run once more; if it
+        dies again on the same case, that is recorded in self.engine_crashes (turned into a violation of the
+        property the case was exercising by add_init_failures) and the other shards' reports are still used."""
         t0 = time.time()
         e = dict(GOENV)
         e['GOMAXPROCS'] = '2'
+        e['GOTRACEBACK'] = 'single'
         if env:
             e.update(env)
-        for i in range(shards):
-            o = self.p('zzout', '%s-%d.json' % (engine, i))
-            lf = open(self.p('zzout', '%s-%d.log' % (engine, i)), 'wb')
+
+        def start(i, tag=''):
+            o = self.p('zzout', '%s-%d%s.json' % (engine, i, tag))
+            lg = self.p('zzout', '%s-%d%s.log' % (engine, i, tag))
+            cf_ = self.p('zzout', '%s-%d%s.case' % (engine, i, tag))
+            for f in (o, cf_):
+                if os.path.exists(f):
+                    os.remove(f)
+            lf = open(lg, 'wb')
             cmd = ['timeout', '-s', 'QUIT', str(timeout), binary, '-engine', engine, '-seed', str(self.seed), '-tier', self.tier,
-                   '-shard', '%d/%d' % (i, shards), '-out', o, *merge_args(self, args)]
-            procs.append((subprocess.Popen(cmd, cwd=self.dir, env=e, stdout=lf, stderr=subprocess.STDOUT), o, lf, i))
+                   '-shard', '%d/%d' % (i, shards), '-out', o, '-casefile', cf_, *merge_args(self, args)]
+            return subprocess.Popen(cmd, cwd=self.dir, env=e, stdout=lf, stderr=subprocess.STDOUT), o, lf, lg, cf_
+
+        def crashinfo(lg, cf_):
+            txt = open(lg, 'rb').read().decode('utf-8', 'replace')
+            m = re.search(r'^(fatal error: .*|runtime: goroutine stack exceeds .*)$', txt, re.M)
+            case = None
+            try:
+                b = open(cf_, 'rb').read(512)
+                parts = b[8:].split(b'\0')
+                if len(parts) >= 3 and parts[0]:
+                    case = dict(prop=b[:8].rstrip(b'\0').decode(), engine=parts[0].decode(), type=parts[1].decode('utf-8', 'replace'), index=int(parts[2] or b'0'))
+            except Exception:
+                pass
+            return (m.group(1) if m else None), case, txt
+
+        procs = [start(i) + (i,) for i in range(shards)]
         reports = []
-        for p, o, lf, i in procs:
+        for p, o, lf, lg, cf_, i in procs:
             rc = p.wait()
             lf.close()
-            if rc != 0 or not os.path.exists(o):
-                tail = open(self.p('zzout', '%s-%d.log' % (engine, i)), 'rb').read()[-4000:].decode('utf-8', 'replace')
-                raise Broken('engine %s shard %d exited %d\n%s' % (engine, i, rc, tail))
-            reports.append(json.load(open(o)))
+            if rc == 0 and os.path.exists(o):
+                reports.append(json.load(open(o)))
+                continue
+            fatal, case, txt = crashinfo(lg, cf_)
+            if fatal and case:
+                p2, o2, lf2, lg2, cf2 = start(i, '-again')
+                rc2 = p2.wait()
+                lf2.close()
+                fatal2, case2, txt2 = crashinfo(lg2, cf2)
+                if rc2 != 0 and fatal2 and case2 == case:
+                    log('engine %s shard %d dies on %s (twice): %s' % (engine, i, case, fatal))
+                    self.engine_crashes.append(dict(case=case, fatal=fatal, log=txt[:3000], seed=self.seed))
+                    continue
+            raise Broken('engine %s shard %d exited %d\n%s' % (engine, i, rc, txt[-4000:]))
         log('engine %s: %d shards in %.1fs' % (engine, shards, time.time() - t0))
         return reports
 
@@ -405,7 +440,25 @@ def save_replays(prop, violations):
     return paths
 
 
+CO_PROPS = {'wire': ('C03', 'C14')}  # one call decides both: a process-fatal crash inside it counts for either
+
+
+def add_engine_crashes(prop, w, merged):
+    """Process-fatal crashes confirmed by run_engine: a violation when the case was exercising this property's
+    clause; otherwise the check could not run (the crash belongs to another property's check)."""
+    for c in w.engine_crashes:
+        case = c['case']
+        if case['prop'] == prop or prop in CO_PROPS.get(case['engine'], ()) or prop == 'C12':
+            merged['violations'].append(dict(prop=prop, key='%s/fatal-crash' % case['engine'], type=case['type'],
+                                             detail='the process died (not recoverable by the caller) while working on case %d of %s, twice: %s\n%s' % (case['index'], case['type'], c['fatal'], c['log'][:1800]),
+                                             replay=dict(engine=case['engine'], type=case['type'], seed=c['seed'], index=case['index'])))
+            merged['n_violations'] += 1
+        else:
+            raise Broken('engine %s died of %s in a clause of %s (case %d of %s): check %s cannot complete' % (case['engine'], c['fatal'], case['prop'], case['index'], case['type'], prop))
+
+
 def add_init_failures(prop, w, merged):
+    add_engine_crashes(prop, w, merged)
     """A freshly generated package whose init() panics is a violation of C12 (output does not work)
     and C19 (descriptor/type registration is incoherent); other properties carry on without it."""
     for ip, out in (getattr(w, 'init_failures', None) or {}).items():
@@ -786,6 +839,7 @@ def check_conc(prop, tier, seed, repo, keep):
             reps += w.run_engine(bins['race'], 'conc', shards=4, timeout=3000,
                                  env={'GOMAXPROCS': '8', 'GORACE': 'halt_on_error=0 exitcode=0 log_path=%s history_size=2' % logbase})
         merged = merge_reports(reps, prop)
+        add_engine_crashes(prop, w, merged)
         blocks = parse_race_logs(logbase + '.*')
         sigs = {}
         harness_only = 0
